@@ -1,0 +1,32 @@
+//go:build verif
+// +build verif
+
+package eth
+
+import "math/big"
+
+// Verification-only wrappers (build tag verif): they only call existing unexported functions so
+// that the runtime monitors of /verif (property C28) can compare them with the Ethereum
+// specification. No logic lives here.
+
+// VerifDifficulty is difficultyCalculator (pre-London rule, Muir Glacier bomb delay).
+func VerifDifficulty(time uint64, parent *Header) *big.Int {
+	return difficultyCalculator(new(big.Int).SetUint64(time), parent)
+}
+
+// VerifDifficultyDelay is makeDifficultyCalculator(bombDelay)(time, parent).
+func VerifDifficultyDelay(bombDelay *big.Int, time uint64, parent *Header) *big.Int {
+	return makeDifficultyCalculator(bombDelay)(time, parent)
+}
+
+// VerifDatasetSize is datasetSize(block).
+func VerifDatasetSize(block uint64) uint64 { return datasetSize(block) }
+
+// VerifCacheSize is cacheSize(block).
+func VerifCacheSize(block uint64) uint64 { return cacheSize(block) }
+
+// VerifIsLondon is isLondon(h).
+func VerifIsLondon(h *Header) bool { return isLondon(h) }
+
+// VerifIsArrowGlacier is isArrowGlacier(h).
+func VerifIsArrowGlacier(h *Header) bool { return isArrowGlacier(h) }
